@@ -293,7 +293,7 @@ Proof.
     unfold on_new_worker in H. inversion H; subst. reflexivity.
   - destruct (find_proc _ w); [|discriminate]. eapply on_remove_worker_CB; [| | exact H]; [exact Hok | exact HC].
   - eapply handle_submit_array_CB; [exact F | exact HC | | exact H]. destruct entries; exact Hwf.
-  - eapply handle_submit_graph_CB; eassumption.
+  - destruct (bad_graph_rq _ _); [inversion H; subst; eapply CB_same; [| |exact HC]; reflexivity|]. eapply handle_submit_graph_CB; eassumption.
   - eapply handle_open_CB; eassumption.
   - eapply handle_close_CB; eassumption.
   - eapply handle_cancel_CB; [| | exact H]; [exact Hok | exact HC].
